@@ -487,6 +487,7 @@ pub struct Probes {
     pub precondition_void: u64,
     pub spurious_wakes: u64,
     pub listener_calls: u64,
+    pub cont_result_mismatch: u64,
 }
 
 impl Probes {
@@ -511,6 +512,7 @@ impl Probes {
         self.precondition_void += o.precondition_void;
         self.spurious_wakes += o.spurious_wakes;
         self.listener_calls += o.listener_calls;
+        self.cont_result_mismatch += o.cont_result_mismatch;
     }
     pub fn to_json(&self) -> Value {
         json!({
@@ -531,6 +533,7 @@ impl Probes {
             "listener_calls": self.listener_calls,
             "precondition_void": self.precondition_void,
             "spurious_wakes_fired": self.spurious_wakes,
+            "cont_return_value_differs_from_model(info)": self.cont_result_mismatch,
         })
     }
 }
@@ -597,6 +600,9 @@ pub fn check_history(
     let mut by_task: BTreeMap<usize, usize> = BTreeMap::new();
     let mut by_chan: BTreeMap<u32, usize> = BTreeMap::new();
     let mut in_run_call = false;
+    // the stop flag is the atomic the controller touches first inside run(); other atomics a
+    // refactoring might add are scheduling points but are not interpreted by the model
+    let mut stop_flag: Option<u32> = None;
     let mut precondition_ok = true;
     let mut cont_pending_load: Option<bool> = None;
     let mut in_cont = false;
@@ -708,14 +714,10 @@ pub fn check_history(
                         };
                         // a failed run() leaves no handle: cont reports norun/ok per handle state;
                         // only check the cases the model knows exactly
-                        if last_run_ok || runs.is_empty() {
-                            if res != expected {
-                                flag!(viol(
-                                    "cont-result",
-                                    format!("cont() returned {res}, model expects {expected}"),
-                                    seq
-                                ));
-                            }
+                        // cont()'s return value is not part of the property: a mismatch with
+                        // the model is counted as information, never raised
+                        if (last_run_ok || runs.is_empty()) && res != expected {
+                            probes.cont_result_mismatch += 1;
                         }
                         match res {
                             "ok" => probes.cont_ok += 1,
@@ -756,14 +758,20 @@ pub fn check_history(
                         }
                     }
                 }
-                EvKind::Load { val, .. } => {
-                    if in_cont {
+                EvKind::Load { val, obj } => {
+                    if in_run_call && stop_flag.is_none() {
+                        stop_flag = Some(*obj);
+                    }
+                    if in_cont && stop_flag == Some(*obj) {
                         cont_pending_load = Some(*val);
                     }
                 }
-                EvKind::Store { .. } => {
+                EvKind::Store { obj, .. } => {
+                    if in_run_call && stop_flag.is_none() {
+                        stop_flag = Some(*obj);
+                    }
                     // inside run(): the restart's `is_done = true` supersedes the previous run
-                    if in_run_call {
+                    if in_run_call && stop_flag == Some(*obj) {
                         let n = runs.len();
                         if n >= 2 {
                             runs[n - 2].superseded = true;
@@ -824,8 +832,8 @@ pub fn check_history(
         };
         let r = &mut runs[idx];
         match &ev.kind {
-            EvKind::Load { val, .. } => {
-                if *val {
+            EvKind::Load { val, obj } => {
+                if *val && stop_flag == Some(*obj) {
                     r.loads_true += 1;
                     probes.aborted_listener_calls += 1;
                     if !r.superseded && !r.final_sent {
@@ -1117,7 +1125,13 @@ pub fn gen_workload(rng: &mut Rng, stats: &mut GenStats) -> Option<(Workload, Ve
             vec!["ident_list".into(), "ident_list".into(), "ident".into()],
         )
     } else {
-        let g = gen::gen_grammar(rng, &gen::GenCfg::default());
+        let g = gen::gen_grammar(
+            rng,
+            &gen::GenCfg {
+                free_stack_leaves: false,
+                ..gen::GenCfg::default()
+            },
+        );
         let names = g.rule_names();
         let n = g.rules.len();
         let mut starts = vec![g.rules[0].name.clone(), g.rules[0].name.clone()];
